@@ -404,6 +404,28 @@ bool exec_str_b(Ctx &c, const Op &op) {
         if (!ok) set_viol(c, "value_mismatch", "to_std_*string() result differs from the reference transcoding of the model");
         return true;
     }
+    case S_SINKS: {
+        // ST::writef / operator<< into a standard stream that allocates while it is written to (a string stream), with and without exceptions(badbit),
+        // short and very long padding runs.  Under an allocation fault - the library's own allocation or the sink's, made on the library's behalf -
+        // the failure must reach the caller one way or the other (std::bad_alloc, or badbit on the stream) and nothing may leak (teardown ledger).
+        StrObj *x = pick_str_wf(c, op.a);
+        if (!x) { c.skipped = true; return true; }
+        const bool wide = op.b & 1, exc = op.b & 2; const unsigned fmt = (op.b >> 2) % 4;
+        static const char *const F[4] = {"{}|{>200}|{}", "{<70_*}{>130}", "{}", "[{>12}] [{<300_-}] {x}"};
+        note_sig(c, op, std::string("obj=") + cl(x) + (wide ? ",wide" : ",narrow") + (exc ? ",exceptions" : "") + ",fmt=" + std::to_string(fmt));
+        c.budget_bytes = x->model.size() * 16 + 4096;
+        as_const(x);
+        std::ostringstream os; std::wostringstream ws;
+        if (exc) { os.exceptions(std::ios_base::badbit); ws.exceptions(std::ios_base::badbit); }
+        ExcKind ex = run_sut(c, op, [&] {
+            const S &s = *x->p();
+            if (wide) { ST::writef(ws, F[fmt], s, op.c, s); ws << s; } else { ST::writef(os, F[fmt], s, op.c, s); os << s; }
+        });
+        if (c.fired && ex == EX_NONE && (wide ? ws.bad() : os.bad())) ex = EX_BAD_ALLOC;      // reported through the stream by the standard library
+        if (c.fired && ex == EX_OTHER && exc) ex = EX_BAD_ALLOC;                               // std::ios_base::failure from the exceptions mask
+        settle(c, op, ex, 0);
+        return true;
+    }
     case S_OSTREAM: {
         StrObj *x = pick_str_wf(c, op.a);
         if (!x) { c.skipped = true; return true; }
